@@ -364,7 +364,7 @@ def run(ctx):
                                            drop_view=True, drop_properties=True),
                 simulate="file=%s,num=%d" % (os.path.join(simdir, "b"), nsim), depth=40, seed=ctx.seed, workers=1,
                 label="pv_sim")
-    nsimc = 90 if quick else 800
+    nsimc = 90 if quick else 600
     f_css = []
     for tag, prop, plist, mr in (("prop0", "{0}", [0], 1), ("prop1", "{1}", [1], 1), ("noprop", "{}", [], 1),
                                  ("r0prop", "{0}", [0], 0), ("r0noprop", "{}", [], 0)):
@@ -436,7 +436,7 @@ def run(ctx):
             ctx.save_log("crash_sim", rs.out)
             raise Undecided("simulation of TMSignCrash failed: %s" % (rs.errors or rs.violations)[:1])
         cs_scheds += cs_schedules(sim_behaviours(ctx, os.path.join(sd, "b")), plist, "sim_" + tag)
-    ncsrandom = 80 if quick else 1500
+    ncsrandom = 80 if quick else 1000
     f_b2.result()
     rows_cs = run_cs_harness(ctx, cs_scheds, ncsrandom)
     rows_pv = f_rows_pv.result()
